@@ -6,10 +6,10 @@ ids=${@:-$(ls seeded)}
 for d in $ids; do
   D=/verif/seeded/$d; prop=${d%%-*}
   case $prop in C01|C12|C13|C14|C15|C18) base=c65662b;; *) base=5386365;; esac
-  case $d in *-m3|*-m4|*-m5|*-m6|*-m7|*-m8) base=d7aac73;; esac
+  case $d in *-m3|*-m4|*-m5|*-m6|*-m7|*-m8|*-m9|*-m10) base=d7aac73;; esac
   /verif/rebase_seed.sh $D $base > /tmp/seedrun.rebase 2>&1 || { echo "$d REBASE-FAILED: $(tail -1 /tmp/seedrun.rebase)"; continue; }
   checks="$prop"
-  case $d in C16-m2|C16-m3) checks="C16 C08 C09";; C20-m2|C20-m4) checks="C20 C03";; C04-m1) checks="C04 C06";; C04-m3) checks="C04 C08";; C11-m4) checks="C11 C08";; C03-m4) checks="C03 C05";; C04-m5) checks="C04 C06";; C11-m5) checks="C11 C20";; C11-m8) checks="C11 C19";; C20-m7) checks="C20 C08";; C08-m7) checks="C08 C09";; esac
+  case $d in C16-m2|C16-m3) checks="C16 C08 C09";; C20-m2|C20-m4) checks="C20 C03";; C04-m1) checks="C04 C06";; C04-m3) checks="C04 C08";; C11-m4) checks="C11 C08";; C03-m4) checks="C03 C05";; C04-m5) checks="C04 C06";; C11-m5) checks="C11 C20";; C11-m8) checks="C11 C19";; C20-m7) checks="C20 C08";; C08-m7) checks="C08 C09";; C04-m9) checks="C04 C08";; C13-m9|C13-m10) checks="C13 C15";; C12-m9) checks="C12 C15";; C11-m10) checks="C11 C19";; esac
   det=""
   for c in $checks; do
     out=$(timeout 1800 /verif/seedtest.sh $D/patch.diff $c 2>&1)
